@@ -597,8 +597,11 @@ def merge_and_report(prop_id, tier, seed, nshards, meta, results, errors,
         "wall_s": round(wall, 2),
         "violations": len(violations),
     }
-    os.makedirs(os.path.join(HERE, "evidence"), exist_ok=True)
-    with open(os.path.join(HERE, "evidence", prop_id + ".json"), "w") as fh:
+    # (sensitivity runs against a scratch tree keep the committed evidence)
+    evdir = os.environ.get("VERIF_EVIDENCE_DIR") or os.path.join(
+        HERE, "evidence")
+    os.makedirs(evdir, exist_ok=True)
+    with open(os.path.join(evdir, prop_id + ".json"), "w") as fh:
         json.dump(evidence, fh, indent=1, sort_keys=True, default=repr)
         fh.write("\n")
 
